@@ -1965,6 +1965,14 @@ def _m_checked_add(eng, st, callee, args, ev):
     return NotImplemented
 
 
+def _m_len_utf8(eng, st, callee, args, ev):
+    a = args[0] if args else None
+    if not is_c(a):
+        return NotImplemented
+    v = a[1]
+    return C(1 if v < 0x80 else 2 if v < 0x800 else 3 if v < 0x10000 else 4, "usize")
+
+
 def _const_int_model(fn, ret=None):
     """pure integer method, folded when the receiver and all arguments are constants (exact machine semantics)"""
     def model(eng, st, callee, args, ev):
@@ -2429,6 +2437,8 @@ MODELS = {
     "core::ops::index::IndexMut::index_mut": _m_index,
     "core::slice::<impl [T]>::len": _m_len,
     "core::str::<impl str>::len": _m_len,
+    "core::char::methods::<impl char>::len_utf8": _m_len_utf8,
+    "std::char::methods::<impl char>::len_utf8": _m_len_utf8,
     "core::slice::<impl [T]>::is_empty": _m_is_empty,
     "core::f32::<impl f32>::to_bits": _m_to_bits,
     "core::f64::<impl f64>::to_bits": _m_to_bits,
